@@ -9,7 +9,7 @@
    are the oracle of Spec/ClientCodecSpec.v. Value vectors are unbounded lists. *)
 From Coq Require Import NArith List Arith.
 From Rodbus Require Import Base.Outcome Base.ClientTypes Model.Format Model.Range Model.ClientRequest
-  Spec.ClientCodecSpec Proofs.ClientCodecProofs Proofs.PackProofs.
+  Spec.ClientCodecSpec Proofs.ClientCodecProofs Proofs.PackProofs Proofs.ClientBytesProofs.
 Import ListNotations.
 Local Open Scope N_scope.
 
@@ -46,6 +46,12 @@ Theorem C03_size : forall f tx uid c bs, call_wf c -> client_submit f tx uid c =
   (length bs <= match f with Tcp => 260 | Rtu => 256 end)%nat.
 Proof. exact submit_size. Qed.
 Print Assumptions C03_size.
+
+(* What is emitted is a string of bytes (every element below 256), for u16 tx ids and u8 unit ids. *)
+Theorem C03_bytes : forall f tx uid c bs, call_wf c -> tx < 65536 -> uid < 256 ->
+  client_submit f tx uid c = Ok bs -> Forall is_u8 bs.
+Proof. exact submit_bytes. Qed.
+Print Assumptions C03_bytes.
 
 (* Construction and encoding never panic. *)
 Theorem C03_total : forall f tx uid c, call_wf c -> client_submit f tx uid c <> Panic.
@@ -84,4 +90,14 @@ Example C03_example_max_rtu :
 Proof. vm_compute. reflexivity. Qed.
 Example C03_example_over_limit :
   client_submit Tcp 0 1 (CWriteMultipleCoils 0 (repeat true 1969)) = Err ECountTooBigForType.
+Proof. vm_compute. reflexivity. Qed.
+(* The rejection of empty / overflowing ranges rests on AddressRange::try_from at construction: a
+   request whose range was NOT validated (AddressRange has public fields) is encoded and sent.
+   Outside the quantifier of the theorems above (`call` goes through try_from); replayed on the
+   implementation by the check as an observation (evidence: unvalidated_range_literal_probe). *)
+Example C03_unvalidated_empty_range_is_sent :
+  client_encode Tcp 0 1 (RReadCoils (0, 0)) = Ok [0;0; 0;0; 0;6; 1; 1; 0;0; 0;0].
+Proof. vm_compute. reflexivity. Qed.
+Example C03_unvalidated_overflowing_range_is_sent :
+  client_encode Tcp 1 1 (RReadHoldingRegisters (65535, 10)) = Ok [0;1; 0;0; 0;6; 1; 3; 255;255; 0;10].
 Proof. vm_compute. reflexivity. Qed.
